@@ -45,7 +45,7 @@ func vkUniverse(rot int) *zonemodel.Universe {
 		"ext CNAME a.h.t.",
 		"toins CNAME a.u.t.",
 		"*.w A 10.1.7.7", `*.w TXT "wild-s"`,
-		"exact.w A 10.1.7.8",
+		"exact.w A 10.1.7.8", "exact.w AAAA 2001:db8:1::78",
 		"x.ent A 10.1.9.1",
 		"wc CNAME x.w.s.t.",
 	)
